@@ -40,7 +40,12 @@ func (r *Response) Result() (any, error) {
 }
 
 func (r *Response) Send(_ *PID, msg any, _ *PID) {
-	r.result <- msg
+	// A response resolves at most once: never block the replying actor (or the
+	// remote stream reader) on a second reply.
+	select {
+	case r.result <- msg:
+	default:
+	}
 }
 
 func (r *Response) PID() *PID         { return r.pid }
